@@ -1,18 +1,21 @@
 /-
-Tier N: in every version the first two columns of the symbol carry the same region labels row by row
-(both lie in the finder / separator / format / version / encoding-region bands of the left edge).
-`score.rs`'s 2x2 scorer starts each row pair with `count_data = 2`, i.e. it does not test the labels of
-column 0; this fact is what makes that shortcut agree with the documented penalty.
+Tier K (since round 8; was tier N): columns 0 and 1 carry equal region labels in all 40 versions, assembled from the eight
+kernel-evaluated pieces in Finite/Col01K.
 -/
-import FastQr.Spec.Regions
+import FastQr.Finite.Pieces
+import FastQr.Finite.Col01K.P0
+import FastQr.Finite.Col01K.P1
+import FastQr.Finite.Col01K.P2
+import FastQr.Finite.Col01K.P3
+import FastQr.Finite.Col01K.P4
+import FastQr.Finite.Col01K.P5
+import FastQr.Finite.Col01K.P6
+import FastQr.Finite.Col01K.P7
 
 namespace FastQr.Finite
 open FastQr Spec
 
-def col01Ok (v : Nat) : Bool :=
-  let x := Regions.ctx v
-  (List.range x.n).all fun r => (Regions.regionIn x r 0).code == (Regions.regionIn x r 1).code
-
-theorem col01Ok_all : (List.range 40).all col01Ok = true := by native_decide
+theorem col01Ok_all : (List.range 40).all col01Ok = true :=
+  all_range40_of_pieces _ col01Ok_p0 col01Ok_p1 col01Ok_p2 col01Ok_p3 col01Ok_p4 col01Ok_p5 col01Ok_p6 col01Ok_p7
 
 end FastQr.Finite
